@@ -738,10 +738,11 @@ def run(ctx):
                 # the remaining cases (DESIGN 3.3); reported as `no-failing-input-found` only if none turns up
                 ctx.count("correspondence_break_property_holds")
                 if len(deferred) < 3:
-                    deferred.append(("code and model disagree (%s) but the property holds on this input: %s" % (op, why),
+                    deferred.append(("code and model disagree (%s: code %s, model %s) but the property holds on this input: %s"
+                                     % (op, str(cv)[:300], str(mv)[:120], why),
                                      {"correspondence": op, "line": lines[slot["matrix"]][:2000], "code": cv, "model": mv, "input": rcase}))
-            if len(ctx.violations) > 5:
-                break
+            if len(ctx.violations) > 5 or ctx.counters.get("correspondence_break_property_holds", 0) >= 150:
+                break                       # (each evaluation of the specification costs driver calls)
     if deferred and not any(found for _, found in ctx.violations):
         for what, rec_ in deferred:
             ctx.violation(what, rec_, found_input=False)
